@@ -25,7 +25,10 @@ RULE = ('Exhaustive enumeration: every (route, method) of the API x caller '
         'project, reader of another project, member, admin, service} x '
         '{request on existing entities that succeeds for an authorised '
         'caller, request naming missing entities} on a populated fixture at '
-        'microversion 1.39; plus for every documented policy rule two '
+        'microversion 1.39; the unauthorised callers again at 22 further '
+        'microversions on both sides of every handler window (and without a '
+        'version header) with the body that version documents; plus for '
+        'every documented policy rule two '
         're-loaded configurations (rule: "!" and rule: "@") in which every '
         'operation is tried by the admin resp. a role-less caller; plus the '
         'no-credentials row under auth_strategy=keystone. Oracle: / is open; '
@@ -230,9 +233,19 @@ def fixture(svc):
     return svc.snapshot()
 
 
-def send(svc, app, method, path, body, caller):
+def send(svc, app, method, path, body, caller, version=V):
     kw = dict(CALLERS[caller])
-    return svc.request(method, path, version=V, body=body, app=app, **kw)
+    return svc.request(method, path, version=version, body=body, app=app,
+                       **kw)
+
+
+# microversions on both sides of every handler window (a handler variant per
+# window has its own authorisation call), plus no header and "latest"
+SWEEP_VERSIONS = ['1.0', '1.1', '1.2', '1.5', '1.6', '1.7', '1.8', '1.11',
+                  '1.12', '1.13', '1.18', '1.19', '1.20', '1.27', '1.28',
+                  '1.29', '1.30', '1.33', '1.34', '1.37', '1.38', None,
+                  'latest']
+SWEEP_CALLERS = ['none', 'no-roles', 'reader-other', 'member']
 
 
 def leaks(resp, method, path, body):
@@ -277,6 +290,26 @@ def run_worker(ctx):
             record(v, {'kind': 'default', 'method': m, 'route': route,
                        'path': path, 'body': body, 'caller': caller,
                        'variant': variant})
+    # ------------------------------- default policy at other microversions
+    vcells = []
+    for ver in SWEEP_VERSIONS:
+        vnum = c14.applied(ver)
+        for (m, route, path, body, missing) in OPS:
+            vbody = c14.plausible_body(route, m, vnum) \
+                if m in ('PUT', 'POST') else None
+            for caller in SWEEP_CALLERS:
+                vcells.append((m, route, path, vbody, caller, 'existing',
+                               ver))
+    for i, (m, route, path, body, caller, variant, ver) in enumerate(vcells):
+        if i % ctx.nworkers != ctx.idx:
+            continue
+        try:
+            check_cell(ctx, svc, None, snap, before, inj, m, route, path,
+                       body, caller, variant, 'default', version=ver)
+        except Violation as v:
+            record(v, {'kind': 'default', 'method': m, 'route': route,
+                       'path': path, 'body': body, 'caller': caller,
+                       'variant': variant, 'version': ver})
     if ctx.idx == 0:
         # the version document is open, even without credentials
         for caller in CALLERS:
@@ -371,6 +404,7 @@ def run_worker(ctx):
     stats.violations.extend(fails.values())
     if ctx.idx == 0:
         stats.extra['default_policy_cells'] = len(cells)
+        stats.extra['default_policy_cells_other_versions'] = len(vcells)
         stats.extra['override_configurations'] = len(configs)
         stats.extra['operations'] = len(OPS)
 
@@ -381,15 +415,18 @@ def dump_of(svc, snap):
 
 
 def check_cell(ctx, svc, app, snap, before, inj, m, route, path, body, caller,
-               variant, config):
+               variant, config, version=V):
     stats = ctx.stats
     svc.restore(snap)
     inj.start()
-    r = send(svc, app, m, path, body, caller)
+    r = send(svc, app, m, path, body, caller, version)
     nstmt = inj.stop()
     stats.evaluations += 1
     ok_caller = allowed(m, route, caller)
     cell = '%s %s as %s (%s)' % (m, route, caller, variant)
+    if version != V:
+        cell += ' @%s' % version
+        variant = '%s@%s' % (variant, version)
     if r.escaped or r.status >= 500:
         raise Violation({'clause': 'server-error', 'method': m,
                          'route': route, 'caller': caller},
@@ -441,7 +478,8 @@ def check_cell(ctx, svc, app, snap, before, inj, m, route, path, body, caller,
     if r.status != 403:
         # allowed only if every caller gets that answer for this request
         svc.restore(snap)
-        ra = send(svc, app, m, path, body, authorised_caller(route))
+        ra = send(svc, app, m, path, body, authorised_caller(route),
+                  version)
         if not (r.status in (404, 405, 406, 415) and ra.status == r.status):
             raise Violation({'clause': 'unauthorised-caller-not-403',
                              'method': m, 'route': route, 'caller': caller,
@@ -460,7 +498,8 @@ def replay(ctx, data):
     try:
         check_cell(ctx, svc, None, snap, before, inj, data['method'],
                    data['route'], data['path'], data['body'], data['caller'],
-                   data['variant'], 'default')
+                   data['variant'].split('@')[0], 'default',
+                   version=data.get('version', V))
     except Violation as v:
         return [{'signature': v.signature, 'detail': v.detail}]
     return []
